@@ -196,7 +196,10 @@ def templated_parse(rng):
     uri += host
     if ptxt is not None:
         uri += ':' + ptxt
-    uri += '/' + own_enc(path, rng, keep='/' if rng.random() < 0.5 else '')
+    # half of the time the characters RFC 3986 allows raw in a path segment stay raw (';' would start urlparse's
+    # params for the http-like schemes, so it is always encoded)
+    r = rng.random()
+    uri += '/' + own_enc(path, rng, keep="/+!$&'()*,=:@" if r < 0.4 else '/' if r < 0.7 else '')
     if pairs:
         def q(s):
             e = own_enc(s, rng)
@@ -226,7 +229,7 @@ def sqlite_case(fn, nt=False):
 def gen_sqlite_systematic():
     out = [sqlite_case(x) for x in (':memory:', '/:memory:', '//:memory:', ':memory', '/', '//', '//x', '///x', '', 'rel.db',
                                     'a/b', './x', '/tmp/a b', '/tmp/a%41', '/tmp/a?b', '/tmp/a#b', '/tmp/a;b', '/tmp/a+b',
-                                    '/tmp/\u00fc\u20ac\U0001f600', '/a|b', '/C|/x', '/C:/x', 'C:/x', 'C|/x', None, 5,
+                                    '/tmp/\u00fc\u20ac\U0001f600', '/a|b', '/tmp/x:memory:', 'x:memory:', '/:memory:x', '/C|/x', '/C:/x', 'C:/x', 'C|/x', None, 5,
                                     '/x\ud800')]
     for ch in ALPHABET:
         out.append(sqlite_case('/' + ch))
@@ -632,6 +635,9 @@ def oracle_build(c, o):
                 finding = 'port_without_host_dropped'
             elif port == '':
                 return None          # an empty port text is "no port"
+        if parsed is not None and not good_rest:
+            return fail('components (%r, %r, %r, %r, %r) come back from %r as %r' % (user_e, pw_e, host_e, port, path_e, o['uri'], parsed),
+                        None, got=o)
         return fail('port %r is neither rejected nor kept: uri %r parses to %r' % (port, o['uri'], parsed), finding, got=o)
     if o['uri'] is None:
         return fail('uri() raised %s on valid components' % o['err'], got=o)
